@@ -184,6 +184,7 @@ def finish(prop, tier, seed, level, t0, coverage, assumptions, candidates, harne
     coverage['inconclusive_count'] = len(inconclusive)
     coverage['known_findings_observed'] = [c['key'] for c in known_hit]
     coverage['violation_keys'] = [c['key'] for c in confirmed]
+    coverage['violation_details'] = [{'key': c['key'], 'desc': c.get('desc', ''), 'replay': c['replay']} for c in confirmed]
     if extra:
         coverage.update(extra)
     ev = {
